@@ -76,6 +76,7 @@ def class_identified_by_loader(chk: Check, rule: str = 'PROV-loader-precedence')
 
 
 def run(chk: Check) -> None:
+    from ..rules import Resolver as _R
     prog = chk.prog
     pe = prog.module('persistence')
 
@@ -84,12 +85,18 @@ def run(chk: Check) -> None:
     cfg = cfg_of(wr)
     sp = wr.params[0]
     adds = [n for n in cfg.nodes if any(isinstance(c, ast.Call) and norm(c.func) == f'{sp}.auto_persist' for c in (walk_shallow(n.expr()) if n.expr() is not None else []))]
-    fresh = [n for n in cfg.nodes if n.kind == 'stmt' and isinstance(n.ast, ast.Assign) and norm(n.ast.targets[0]) == f'{sp}._auto_persist'
-             and isinstance(n.ast.value, ast.Call) and norm(n.ast.value.func) in ('set', 'frozenset', 'copy.copy')]
+    from ..rules import Resolver as _R2
+    rw = _R2(wr)
+    def _values(v):   # a conditional expression counts as its two branches
+        return _values(v.body) + _values(v.orelse) if isinstance(v, ast.IfExp) else [v]
+    def _is_new_set(v):
+        return isinstance(v, ast.Call) and norm(v.func) in ('set', 'frozenset', 'copy.copy')
+    stores_ap = [n for n in cfg.nodes if n.kind == 'stmt' and isinstance(n.ast, ast.Assign) and norm(n.ast.targets[0]) == f'{sp}._auto_persist']
+    fresh = [n for n in stores_ap if all(_is_new_set(v) for v in _values(n.ast.value))]
     ok = bool(adds) and all(cfg.must_pass(cfg.entry, [a], lambda m: m in fresh, edge_ok=no_exc) for a in adds)
     chk.ob('PROV-auto-persist-copy', wr, ok, 'a class decorated with auto_persist gets its own new set (copied from the parent\'s) before members are added: '
            'declarations never leak into sibling classes or the parent', kind='fresh-set-before-add')
-    inherit = [n for n in fresh if n.ast.value.args and norm(n.ast.value.args[0]) == f'{sp}._auto_persist']
+    inherit = [n for n in fresh if any(v.args and rw.text(v.args[0]) == f'{sp}._auto_persist' for v in _values(n.ast.value))]
     chk.ob('PROV-auto-persist-copy', wr, bool(inherit), 'the new set starts from the inherited members', kind='inherits-parent')
     # the lazy persist() hook runs for every object before its members are saved / loaded; the "already configured" mark is not inheritable
     epc = prog.func('persistence.Savable._ensure_persist_configured')
@@ -217,7 +224,8 @@ def run(chk: Check) -> None:
         chk.ob('TAB-member-kinds', gv, not dev, f'decision table over the tag read back: {m_tag!r} re-binds the named method on the new object, {s_tag!r} loads the nested state with the same '
                f'load context, no tag hands the stored value back' + (f'; deviations {dev[:2]}' if dev else ''), kind='load-kinds')
     lm = prog.func('persistence.Savable.load_members')
-    ok = any(isinstance(c, ast.Call) and norm(c.func) == 'setattr' and [norm(a) for a in c.args[:2]] == ['self', 'member'] and '_get_value' in norm(c.args[2]) for c in calls_in_func(lm))
+    from ..rules import Resolver as _R
+    ok = any(isinstance(c, ast.Call) and norm(c.func) == 'setattr' and [norm(a) for a in c.args[:2]] == ['self', 'member'] and '_get_value' in _R(lm).text(c.args[2]) for c in calls_in_func(lm))
     chk.ob('TAB-member-kinds', lm, ok, 'load_members assigns every declared member from _get_value', kind='load-assigns-all')
     for q, fn in (('persistence.Savable.save_instance_state', 'save_members'), ('persistence.Savable.load_instance_state', 'load_members')):
         f = prog.func(q)
@@ -247,7 +255,7 @@ def run(chk: Check) -> None:
     for t in tries:
         if any(isinstance(c, ast.Call) and last_name(c) == 'get_custom_meta' for s in t.body for c in ast.walk(s)):
             h_ok = any(h.type is not None and 'ValueError' in norm(h.type) and any(isinstance(s, ast.Assign) and norm(s.targets[0]) == 'loader' and 'default' in norm(s.value) for s in h.body) for h in t.handlers)
-            e_ok = any(isinstance(s, ast.Assign) and norm(s.targets[0]) == 'loader' and 'loader_identifier' in norm(s.value) for s in t.orelse)
+            e_ok = any(isinstance(s, ast.Assign) and norm(s.targets[0]) == 'loader' and ('loader_identifier' in _R(eol).text(s.value) or 'get_custom_meta' in _R(eol).text(s.value)) for s in t.orelse)
             ok = h_ok and e_ok
     chk.ob('PROV-loader-precedence', eol, ok, '3) the global default is used only when the saved state names none', kind='default-last')
     ce = [c for c in calls_in_func(eol, 'copyextend')]
@@ -266,9 +274,9 @@ def run(chk: Check) -> None:
     records_class = ident is not None and '.__class__' in ident or (ident is not None and 'type(' in ident)
     ok = len(rec) == 1 and all(('notnone', f'{sv.params[1]}.loader') in f for _, f in fs.site_facts(rec[0]))
     chk.ob('PROV-loader-precedence', sv, ok, 'save() records the loader in the saved state exactly when the save context has one', node=rec[0] if rec else sv.node, kind='recorded-iff-custom')
-    uses = [n for n in ast.walk(eol.node) if isinstance(n, ast.Assign) and norm(n.targets[0]) == 'loader' and 'loader_identifier' in norm(n.value)]
+    uses = [n for n in ast.walk(eol.node) if isinstance(n, ast.Assign) and norm(n.targets[0]) == 'loader' and ('loader_identifier' in _R(eol).text(n.value) or 'get_custom_meta' in _R(eol).text(n.value))]
     if uses and ident is not None:
-        val = uses[0].value
+        val = _R(eol).expand(uses[0].value)
         instantiated = isinstance(val, ast.Call) and isinstance(val.func, ast.Call) and last_name(val.func) == 'load_object'
         chk.ob('SYM-loader-kind', eol, instantiated == bool(records_class),
                f'save() records {"the loader\'s class" if records_class else "the loader object"} ({ident}); what load puts into the context must be '
